@@ -197,11 +197,7 @@ Definition reflect_batch (SO : stf_oracle) (pre post : wstate) (txs : list tx) (
 
 Definition is_pool_request (t : tx) : bool :=
   (txkind_eqb (t_kind t) KSwap || txkind_eqb (t_kind t) KLiqDeposit || txkind_eqb (t_kind t) KLiqWithdraw)
-  && match t_poolkey t with
-     | Some k => bytes_eqb (poolkey_bytes k) (t_data t)     (* the data is the canonical name of the pool *)
-                 && negb (denom_eqb (fst k) (snd k))
-                 && poolkey_eqb (poolkey_new (fst k) (snd k)) k
-     | None => false end.
+  && match tx_pool t with Some _ => true | None => false end.   (* the data is the canonical name of a pool *)
 
 Definition reflect_seal (SO : stf_oracle) (pre post : wstate) (a : option action) : list (N * N) :=
   let ds := state_denoms pre (state_denoms post [Mel; Sym; Erg]) in
@@ -252,7 +248,7 @@ Definition reflect_seal (SO : stf_oracle) (pre post : wstate) (a : option action
         let m := Z.of_N (s_fee_mult pre) in
         let mm := Z.max (m / 128) (if tip_901 pre then 2 else 0) in
         let expect := (m + Z.quot (mm * a_delta act) 128)%Z in
-        flag 17 (Z.eqb (Z.of_N (s_fee_mult post)) (Z.max 0 expect)) 2
+        flag 17 (Z.eqb (Z.of_N (s_fee_mult post)) (Z.min (Z.of_N MAX128) (Z.max 0 expect))) 2
       end)
   (* C18 *)
   ++ flag 18 (s_dosc_speed pre =? s_dosc_speed post) 2
